@@ -120,7 +120,8 @@ def gen_op(rng, recipe, kind, allow=None, p_each=0.3):
     if kind == "load_state_dict":
         # scope: which part of the state differs from the model's current state (partial changes matter: a cache owner
         # may only look at its own subtree)
-        return {"op": kind, "seed": rng.randrange(1 << 30), "scope": rng.choice(["all", "all", "hypers", "variational", "likelihood", "one"]), "pick": rng.randrange(1 << 16)}
+        # cold: the checkpoint comes from a model that was never called (variational models: initialisation flag still 0)
+        return {"op": kind, "seed": rng.randrange(1 << 30), "scope": rng.choice(["all", "all", "hypers", "variational", "likelihood", "one"]), "pick": rng.randrange(1 << 16), "cold": rng.random() < 0.3}
     if kind == "bad_load_state_dict":
         return {"op": kind, "kind": rng.choice(["missing", "unexpected", "misshaped"]), "seed": rng.randrange(1 << 30), "pick": rng.randrange(1 << 16)}
     raise core.HarnessError("unknown op kind " + kind)
@@ -370,7 +371,9 @@ def apply(live, op, out, role=""):
     elif k in ("load_state_dict", "bad_load_state_dict"):
         donor = Live(recipe).model if live.is_var else zoo.build_exact(recipe, data=_cur_data(M, recipe))
         zoo.randomise_parameters(donor, op["seed"])
-        if live.is_var:
+        if live.is_var and op.get("cold") and k == "load_state_dict":
+            out.stats["probe:load_state_dict_from_never_called_model"] += 1
+        elif live.is_var:
             # a donor that has been called once, so that its initialisation flags are set like a trained model's
             donor.train()
             with torch.no_grad():
